@@ -322,7 +322,7 @@ fn pooled_history(n: usize, len: usize, rng: &mut Rng) -> Vec<Op> {
     const POOL_B: [u32; 12] = [0x10004C29, 0x00084307, 0x00044205, 0x00024103, 0x00014002, 0x10008C29, 0x08008B25, 0x04008A1F, 0x0200891D, 0x01008817, 0x00018002, 0x00011002];
     let use_b = rng.chance(1, 2);
     let pool = if use_b { 5 + rng.below(8) as usize } else { 2 + rng.below(7) as usize }; // sometimes only {0, 1}
-    let mut pick = |rng: &mut Rng| if use_b { POOL_B[rng.below(pool as u64) as usize] } else { POOL_A[rng.below(pool as u64) as usize] };
+    let pick = |rng: &mut Rng| if use_b { POOL_B[rng.below(pool as u64) as usize] } else { POOL_A[rng.below(pool as u64) as usize] };
     let mut ops = Vec::with_capacity(len);
     let w: Vec<u32> = (0..n).map(|_| pick(rng)).collect();
     ops.push(Op::New(rng.below(ctor_forms(n) as u64) as usize, w));
